@@ -773,6 +773,15 @@ fn leaf_devs() -> Vec<Dev> {
         ("leaf:ski_truncated", |s, k| s.leaf.set(Kind::Ski, ExtV::Ski(k.skis[KEY_LEAF][..8].to_vec()))),
         ("leaf:ski_empty", |s, _| s.leaf.set(Kind::Ski, ExtV::Ski(vec![]))),
         ("leaf:ski_same_digits_regrouped", |s, k| s.leaf.set(Kind::Ski, ExtV::Ski(ski_regrouped(&k.skis[KEY_LEAF]).unwrap_or_default()))),
+        ("leaf:ski_sha256_leftmost_160_bits", |s, k| {
+            use sha2::Digest as _;
+            let spki = SubjectPublicKeyInfoOwned::from_key(*k.keys[KEY_LEAF].verifying_key()).unwrap();
+            s.leaf.set(Kind::Ski, ExtV::Ski(sha2::Sha256::digest(spki.subject_public_key.raw_bytes())[..20].to_vec()))
+        }),
+        ("leaf:ski_sha1_of_whole_spki", |s, k| {
+            let spki = SubjectPublicKeyInfoOwned::from_key(*k.keys[KEY_LEAF].verifying_key()).unwrap();
+            s.leaf.set(Kind::Ski, ExtV::Ski(Sha1::digest(der::Encode::to_der(&spki).unwrap()).to_vec()))
+        }),
         ("leaf:ski_padded", |s, k| s.leaf.set(Kind::Ski, ExtV::Ski([k.skis[KEY_LEAF].clone(), vec![0]].concat()))),
         ("leaf:ski_zero_prefixed", |s, k| s.leaf.set(Kind::Ski, ExtV::Ski([vec![0], k.skis[KEY_LEAF].clone()].concat()))),
         // CRL distribution points
